@@ -21,15 +21,36 @@ import (
 var m2T = reflect.TypeOf((*M2)(nil))
 
 type sigGen struct {
-	r     *Rng
-	depth int
+	r       *Rng
+	depth   int
+	results bool // drawing result types (see plainType)
 }
 
+// The M universe must stay acyclic (a dependency cycle among these
+// constructors would legitimately make later Provides / deferred Invokes of
+// the tracked universe fail with a cycle error the reference model knows
+// nothing about). Parameters are therefore drawn from one set of types and
+// results from a disjoint one: constructors drawn here only consume M0-based
+// types and only produce M1/M2-based ones, and nothing in the grammar turns
+// an M1/M2-based value back into an M0-based one.
+var (
+	sigParamTypes = []reflect.Type{m0T, reflect.SliceOf(m0T), msT, miT,
+		reflect.TypeOf((chan int)(nil)), reflect.TypeOf((func())(nil)), reflect.TypeOf([2]int{}), reflect.TypeOf(""),
+		reflect.SliceOf(reflect.SliceOf(m0T))}
+	sigResultTypes = []reflect.Type{m1T, m2T, reflect.SliceOf(m1T), reflect.SliceOf(reflect.SliceOf(m1T)),
+		reflect.TypeOf((<-chan int)(nil)), reflect.TypeOf(map[string]int(nil)), reflect.TypeOf(0),
+		reflect.TypeOf((*error)(nil)), reflect.TypeOf((*MJ)(nil)).Elem()}
+)
+
 func (g *sigGen) plainType() reflect.Type {
-	if g.r.P(0.55) {
-		return []reflect.Type{m0T, m1T, m2T, reflect.SliceOf(m0T), msT, miT}[g.r.Intn(6)]
+	set := sigParamTypes
+	if g.results {
+		set = sigResultTypes
 	}
-	return malFieldTypes[g.r.Intn(len(malFieldTypes))]
+	if g.r.P(0.5) {
+		return set[g.r.Intn(4)]
+	}
+	return set[g.r.Intn(len(set))]
 }
 
 // object builds a struct type embedding (or merely containing) embed.
@@ -152,6 +173,8 @@ func randomSig(api string, seed int) (call malCall, ok bool) {
 	if variadic {
 		in = append(in, reflect.SliceOf(g.plainType()))
 	}
+	// decorators produce what they consume; constructors produce other types
+	g.results = api != "decorate"
 	nr := g.r.Range(0, 3)
 	if api == "invoke" {
 		nr = g.r.Intn(2)
